@@ -17,7 +17,7 @@ from vfw import scen_gen
 from vfw.core import HERE, Ctx, Violation, canon, jsonable
 
 PROPERTY = "C12"
-SIZES = {"quick": 800, "thorough": 8000}
+SIZES = {"quick": 1200, "thorough": 8000}
 NSEEDS = {"quick": 8, "thorough": 16}
 MAX_SHARDS = 2  # each shard drives its own set of worker interpreters (2 x 8 quick, 2 x 16 thorough)
 RULE = (
@@ -121,6 +121,10 @@ def norm(out):
     hence the exception type) may depend on the listing order without the accept/reject outcome doing so."""
     if isinstance(out, list) and len(out) == 1 and isinstance(out[0], dict) and "construct-raise" in out[0]:
         return [{"construct-raise": True}]
+    # the same holds for a call: the statement fixes values, dimensions and the accept/reject outcome - not which of two
+    # reasons for refusing a request that is ill-posed twice over is reported
+    if isinstance(out, list):
+        return [{"raise": True} if isinstance(o, dict) and "raise" in o else o for o in out]
     return out
 
 
